@@ -5,6 +5,8 @@ Tie: differential histories over nested / prefix-related repository names and ho
 direct oracle: content is only visible where it was pushed or mounted, and on the directory store every file
 system change of a request lies inside that repository's own directory (snapshots around every request,
 with a sentinel layout outside the root)."""
+import json
+
 import apicheck
 import oracles
 from api import *
@@ -100,6 +102,19 @@ def oracle(ctx, case, io):
             extra = set(o.get("tags") or []) - tags.get(repo, set())
             if extra:
                 ctx.violation("tags %s listed in repository %r where they were never pushed" % (sorted(extra), repo), hist(), "C16:tag-leak")
+        elif kind == "refwalk":
+            # continuation links of this repository's paged referrers response replayed against other repositories
+            for name, pages in zip(st["impl"].get("names") or [], (res.get("par") or [])[1:]):
+                for pg in pages:
+                    try:
+                        j = json.loads(oracles.body_of(pg).decode())
+                    except Exception:
+                        continue
+                    for dsc in (j.get("manifests") or []) if isinstance(j, dict) else []:
+                        if dsc.get("digest") not in have.get(name, set()):
+                            ctx.violation("referrer %s of repository %r was served from repository %r (paged request with the cache digest of %r's response), where it was never pushed"
+                                          % (str(dsc.get("digest"))[:19], repo, name, repo), hist(), "C16:referrer-page-leak")
+                            break
         elif kind == "refs" and status == 200:
             o = canon_impl(st, res, SidMap())
             for dk in o.get("refs") or []:
@@ -108,9 +123,34 @@ def oracle(ctx, case, io):
                     ctx.violation("referrer %s listed in repository %r where it was never pushed" % (d[:19], repo), hist(), "C16:referrer-leak")
 
 
+def page_cases(ctx, first, n):
+    """a referrers response split into pages in one repository; its continuation links sent to other repositories"""
+    import c07
+    rng = ctx.rng
+    cases = []
+    for i in range(n):
+        conf = mkconf(store=("mem", "dir")[i % 2], rlimit=rng.choice([900, 1100, 1500]), withsubj=False, dangling=False)
+        repos = ["a", "a/b", "ab"]
+        w = c07.W7(rng, conf, repos[:2])
+        w.base("a")
+        subj = w.subject("a")
+        for _ in range(rng.randrange(5, 12)):
+            w.artifact("a", subject=subj)
+        for _ in range(rng.randrange(0, 3)):
+            w.artifact("a/b", subject=subj)
+        flt = rng.choice([None, None, c07.ATS[0]])
+        for _ in range(2):
+            st = c07.ref_walk("a", subj["digest"], flt)
+            st["impl"] = dict(st["impl"], repo="a", names=["a/b", "ab", "never/used"])
+            w.add(st)
+            w.add(c07.ref_walk("a/b", subj["digest"], flt))
+        cases.append(dict(id=first + i, conf=conf, steps=w.steps, contents=sorted(w.contents), repos=repos))
+    return cases
+
+
 def make_cases(ctx, first):
     n, steps = (240, 30) if ctx.tier == "quick" else (6000, 45)
-    cases = []
+    cases = page_cases(ctx, first + 100000, 24 if ctx.tier == "quick" else 600)
     rng = ctx.rng
     for i in range(n):
         store = ("dir", "mem", "dir")[i % 3]
@@ -128,6 +168,30 @@ def make_cases(ctx, first):
                 r = rng.choice(RESERVED)
                 w.add(upload_post(r, digest=dg("sha256", b"x"), body=b"x"))
                 w.add(tag_list(r))
+            if rng.random() < 0.15:
+                # digests inside a manifest body whose hex part walks to another repository's blob or out of the root
+                tgt = w.repo()
+                up = "../" * (3 + tgt.count("/"))
+                others = [r for r in repos if r != tgt and w.blobs[r]]
+                if others and rng.random() < 0.6:
+                    o = rng.choice(others)
+                    data = rng.choice(w.blobs[o])
+                    hexd = up + o + "/blobs/sha256/" + dg("sha256", data).split(":")[1]
+                else:
+                    data = secret
+                    hexd = up + "../outside/layout/blobs/sha256/" + dg("sha256", secret).split(":")[1]
+                evil = {"mediaType": rng.choice([MT_OCI_M, MT_LAYER]), "digest": "sha256:" + hexd, "size": len(data)}
+                if rng.random() < 0.5:
+                    body = index_manifest([evil], annotations={"evil": str(len(w.steps))})
+                    mt = MT_OCI_I
+                else:
+                    w.ensure_blob(tgt, b"{}")
+                    body = image_manifest(desc(MT_CFG, b"{}"), [evil], annotations={"evil": str(len(w.steps))})
+                    mt = MT_OCI_M
+                w.contents.add(body)
+                w.add(manifest_put(tgt, "evil", body, ctype=mt))
+                w.add(manifest_get(tgt, "evil", accept=[MT_OCI_M]))
+                w.add(manifest_get(tgt, "evil", accept=[MT_OCI_I, MT_OCI_M]))
             if rng.random() < 0.2:
                 tgt = w.repo()
                 d = dg("sha256", secret) if rng.random() < 0.5 else dg("sha256", rng.choice(gen.BLOBS))
@@ -158,6 +222,15 @@ def make_cases(ctx, first):
             st2 = [renum(s) for s in st2]
             w.steps = st2
         w.probe()
+        if store == "mem":
+            # a pure memory store has no storage on disk: layouts that happen to lie below the working directory under a
+            # repository's name are not its content
+            conf["cwd"] = True
+            for r in repos:
+                for data in gen.BLOBS[1:4]:
+                    seed.append(dict(path=r + "/blobs/sha256/" + dg("sha256", data).split(":")[1], b64=b64(data)))
+                seed.append(dict(path=r + "/oci-layout", b64=b64(b'{"imageLayoutVersion":"1.0.0"}')))
+                seed.append(dict(path=r + "/index.json", b64=b64(jdump({"schemaVersion": 2, "mediaType": MT_OCI_I, "manifests": []}))))
         cases.append(dict(id=first + i, conf=conf, steps=w.steps, contents=sorted(w.contents), seed=seed, secret=secret, repos=repos))
     return cases
 
